@@ -528,23 +528,33 @@ String File::getRelativePath(const String& from, const String& to)
   String simTo = simplifyPath(to);
   if(simFrom == simTo)
     return String(".");
-  simFrom.append('/');
-  if(String::compare((const char*)simTo, (const char*)simFrom, simFrom.length()) == 0)
+  if(simFrom.startsWith("/") != simTo.startsWith("/"))
+    return String(); // there is no relative path between an absolute and a relative path
+  if(!simFrom.isEmpty() && !simFrom.endsWith("/"))
+    simFrom.append('/');
+  String simToDir = simTo;
+  if(!simToDir.isEmpty() && !simToDir.endsWith("/"))
+    simToDir.append('/');
+  if(String::compare((const char*)simToDir, (const char*)simFrom, simFrom.length()) == 0)
     return String((const char*)simTo + simFrom.length(), simTo.length() - simFrom.length());
-  String result("../");
+  String result;
   while(simFrom.length() > 0)
   {
     simFrom.resize(simFrom.length() - 1);
     const char* newEnd = simFrom.findLast('/');
-    if(!newEnd)
-      break;
-    simFrom.resize((newEnd - (const char*)simFrom) + 1);
-    if(String::compare((const char*)simTo, (const char*)simFrom, simFrom.length()) == 0)
+    usize newLen = newEnd ? (usize)(newEnd - (const char*)simFrom) + 1 : 0;
+    if(String::compare((const char*)simFrom + newLen, "..") == 0)
+      return String(); // leaving a leading ".." of from would need the name of that directory
+    simFrom.resize(newLen);
+    result.append("../");
+    if(String::compare((const char*)simToDir, (const char*)simFrom, simFrom.length()) == 0)
     {
-      result.append(String((const char*)simTo + simFrom.length(), simTo.length() - simFrom.length()));
+      if(simTo.length() > simFrom.length())
+        result.append(String((const char*)simTo + simFrom.length(), simTo.length() - simFrom.length()));
+      else
+        result.resize(result.length() - 1);
       return result;
     }
-    result.append("../");
   }
   return String();
 }
